@@ -434,6 +434,37 @@ impl Prop for C17 {
                 };
                 deliver(&mut rng, &mut case, bytes);
             }
+            14 | 15 if rng.chance(1, 3) => {
+                // path faults: missing / unreadable / directory inputs, unwritable outputs
+                case.family = "path_faults".into();
+                let shape = grid_shape(&mut rng);
+                let spec = small_spec(&mut rng, shape);
+                let bytes = spectrum_bytes(&spec, rng.chance(1, 2), 4);
+                case.files.push(("in.dat".into(), gen::hex(&bytes)));
+                let input = (*rng.pick(&["@DIR@/in.dat", "@DIR@/missing.sfs", "@DIR@", "@DIR@/in.dat/x", "/dev/null", "/proc/self/mem", ""])).to_string();
+                match rng.below(4) {
+                    0 => {
+                        case.args = vec!["view".into(), "-o".into(), (*rng.pick(&["@DIR@/no_such_dir/out.sfs", "@DIR@", "/dev/full", "/proc/version", "@DIR@/in.dat", ""])).to_string()];
+                        if rng.chance(1, 2) {
+                            case.args.push("-O".into());
+                            case.args.push("npy".into());
+                        }
+                        case.args.push(input);
+                    }
+                    1 => {
+                        case.args = vec!["fold".into(), "-o".into(), (*rng.pick(&["@DIR@/no_such_dir/out.sfs", "@DIR@", "/dev/full"])).to_string(), input];
+                    }
+                    2 => case.args = vec!["stat".into(), "-s".into(), "sum".into(), input],
+                    _ => {
+                        case.args = vec!["create".into()];
+                        if rng.chance(1, 2) {
+                            case.args.push("-S".into());
+                            case.args.push((*rng.pick(&["@DIR@/missing.samples", "@DIR@", "/dev/null", "@DIR@/in.dat"])).to_string());
+                        }
+                        case.args.push(input);
+                    }
+                }
+            }
             13 | 14 if rng.chance(2, 3) => {
                 // typed-value corruption inside the per-sample (FORMAT) block of BCF records:
                 // reserved / end-of-vector / missing codes and type descriptor bytes
@@ -773,6 +804,8 @@ impl Prop for C17 {
             "family.create_contradictory_samples",
             "family.create_samples_file",
             "family.bcf_typed_values",
+            "family.path_faults",
+            "family.thousands_of_axes",
             "fault.chunked_stdin",
             "exit.exit0",
             "exit.exit_nonzero",
